@@ -19,6 +19,7 @@ import vcheck
 
 MOD = "PersistMC.tla"
 KINDS = ["raft", "crdt-leveldb", "raft", "crdt-badger", "raft", "crdt-leveldb"]
+SKINDS = ["crdt-leveldb", "raft", "raft", "crdt-badger", "crdt-leveldb"]
 
 
 def _entries(lst):
@@ -35,7 +36,7 @@ def scripts_from_graph(machine, g, tours):
         s0 = g.state(t[0][1])
         labels = [lab for (lab, _) in t[1:]]
         if machine == "rot":
-            steps = [{"act": lab, "exp": _dirs(g.state(dst))} for (lab, dst) in t[1:]]
+            steps = [{"act": lab, "exp": _dirs(g.state(dst)), "keep": g.state(dst)["keep"]} for (lab, dst) in t[1:]]
             if not steps:
                 continue
             sc = {"m": "rot", "keep": s0["keep"], "old": list(s0["dirs"]["old"]), "steps": steps}
@@ -103,8 +104,10 @@ def dedupe(scripts):
 def generate(ctx, rng):
     """TLC state graphs -> scripts."""
     q = ctx.quick()
-    plan = [("rot", "Persist_rot_gen.cfg" if q else "Persist_rot.cfg", 8, 700 if q else None),
-            ("snap", "Persist_snap_gen.cfg", 8, 40 if q else None),
+    plan = [("rot", "Persist_rot_gen.cfg" if q else "Persist_rot_thorough.cfg", 10, 700 if q else None),
+            # the retention value is edited between operations
+            ("rot", "Persist_rot_rekeep_gen.cfg" if q else "Persist_rot_rekeep.cfg", 8, 150 if q else None),
+            ("snap", "Persist_snap_gen.cfg" if q else "Persist_snap.cfg", 8, 40 if q else 500),
             ("xfer", "Persist_xfer_gen.cfg" if q else "Persist_xfer.cfg", 4, None),
             ("pstore", "Persist_pstore_gen.cfg", 6, 500 if q else None),
             # files with a line longer than 64 KiB: as coded LoadLaw does not hold for them (design-level finding);
@@ -136,7 +139,7 @@ def generate(ctx, rng):
         if sample is not None and len(sc) > sample:
             rng.shuffle(sc)
             sc = sc[:sample]
-        cover[machine if machine not in cover else machine + "_long"] = {"graph_states": len(g._raw), "graph_transitions": nedges, "tours": len(tours),
+        cover[cfg.replace("Persist_", "").replace(".cfg", "")] = {"graph_states": len(g._raw), "graph_transitions": nedges, "tours": len(tours),
                           "scripts": len(sc)}
         ctx.log("gen %s: %d states, %d transitions, %d tours -> %d scripts" % (
             machine, len(g._raw), nedges, len(tours), len(sc)))
@@ -145,7 +148,7 @@ def generate(ctx, rng):
     if not ctx.quick():
         # wider peerstore configuration (more address kinds, priorities 0..2, two malformed lines): too large
         # to dump, so TLC samples behaviours of it (every invariant is checked along them)
-        nsim = 400
+        nsim = 700
         prefix = os.path.join(ctx.specdir(), "c14sim")
         ctx.tlc(MOD, "Persist_pstore_sim.cfg", count=False, simulate="file=%s,num=%d" % (prefix, nsim), depth=8,
                 seed=ctx.seed, workers=8, timeout=1500)
@@ -177,6 +180,7 @@ def generate(ctx, rng):
         s["id"] = i + 1
         if s["m"] == "xfer" and s["path"] == "json":
             s["kind"] = KINDS[k % len(KINDS)]
+            s["skind"] = rng.choice(SKINDS)     # export from one kind of peer, import into another (or the same)
             k += 1
     ctx.extra["generation"] = cover
     return scripts
@@ -201,6 +205,7 @@ def run(ctx):
     ctx.tlc(MOD, "Persist_rot.cfg", timeout=1500)
     if not ctx.quick():
         ctx.tlc(MOD, "Persist_rot_thorough.cfg", timeout=1500)
+        ctx.tlc(MOD, "Persist_rot_rekeep.cfg", timeout=1500)
         ctx.tlc(MOD, "Persist_pstore.cfg", timeout=3000, workers=12)
     # design-level finding: with Unmarshal as coded ("merge") the serialise/deserialise law fails on a non-empty target
     w = ctx.tlc(MOD, "Persist_xfer_witness.cfg", count=False, expect_violation=True, timeout=600)
@@ -228,10 +233,10 @@ def classify(rec):
             run += 1
         cls = "nosnap" if rec["pre"]["data"] in ("absent", "nosnap") else ("full" if run >= rec["keep"] else "partial")
         return "C14:rot:%s:%s" % (a, cls)
-    if a == "RotMkLogs":
-        return "C14:rot:mklogs"
+    if a in ("RotMkLogs", "RotRekeep"):
+        return "C14:rot:" + a
     if a == "Export":
-        return "C14:export:%s" % rec["kind"]
+        return "C14:export:%s" % rec["skind"]
     if a == "Import":
         return "C14:import:%s%s" % (rec["kind"], "" if rec["stream"] else ":empty-stream")
     if a == "Reserialize":
